@@ -638,16 +638,19 @@ Lemma header_words_builds : forall nocache ngc,
 Proof. intros. rewrite !header_words_char. split; reflexivity. Qed.
 
 (* ------------------------------------------------------------------ Part D: collector transparency *)
+Lemma hget_upd : forall h a o x, hget (upd h a o) x = if Nat.eqb x a then Some o else hget h x.
+Proof. reflexivity. Qed.
+
 Inductive reach (h : heap) (rs : roots) : addr -> Prop :=
 | reach_root : forall r a, nth_error rs r = Some (Some a) -> reach h rs a
-| reach_field : forall a o i b, reach h rs a -> h a = Some o -> nth_error (fields o) i = Some b -> reach h rs b.
+| reach_field : forall a o i b, reach h rs a -> hget h a = Some o -> nth_error (fields o) i = Some b -> reach h rs b.
 
 (* what C01 establishes for the real collector: a collection leaves every reachable object as it is *)
 Definition collector_safe (collect : nat -> heap -> roots -> heap) : Prop :=
-  forall n h rs a, reach h rs a -> collect n h rs a = h a.
+  forall n h rs a, reach h rs a -> hget (collect n h rs) a = hget h a.
 
 (* h1 (heap of the run with collections) agrees with h2 (heap of the run without) on what h2 can reach *)
-Definition agree (h1 h2 : heap) (rs : roots) : Prop := forall a, reach h2 rs a -> h1 a = h2 a.
+Definition agree (h1 h2 : heap) (rs : roots) : Prop := forall a, reach h2 rs a -> hget h1 a = hget h2 a.
 
 Lemma reach_transfer : forall h1 h2 rs a, agree h1 h2 rs -> reach h2 rs a -> reach h1 rs a.
 Proof.
@@ -660,7 +663,7 @@ Lemma deref_from_agree : forall h1 h2 rs is a, agree h1 h2 rs -> reach h2 rs a -
   deref_from h1 a is = deref_from h2 a is.
 Proof.
   induction is as [| i r IH]; intros a Hag Ha; simpl; [reflexivity |].
-  rewrite (Hag a Ha). destruct (h2 a) as [o |] eqn:Ho; [| reflexivity].
+  rewrite (Hag a Ha). destruct (hget h2 a) as [o |] eqn:Ho; [| reflexivity].
   destruct (nth_error (fields o) i) as [b |] eqn:Hi; [| reflexivity].
   apply IH; [exact Hag | eapply reach_field; eassumption].
 Qed.
@@ -676,7 +679,7 @@ Lemma deref_from_reach : forall h rs is a b, reach h rs a -> deref_from h a is =
 Proof.
   induction is as [| i r IH]; intros a b Ha H; simpl in H.
   - inversion H; subst; exact Ha.
-  - destruct (h a) as [o |] eqn:Ho; [| discriminate].
+  - destruct (hget h a) as [o |] eqn:Ho; [| discriminate].
     destruct (nth_error (fields o) i) as [c |] eqn:Hi; [| discriminate].
     eapply IH; [| exact H]. eapply reach_field; eassumption.
 Qed.
@@ -738,7 +741,7 @@ Proof.
   intros h rs rs' a o Hroots Hfields x H.
   induction H as [r x Hr | x0 o0 i b Hx0 IH Ho0 Hi].
   - eapply Hroots; exact Hr.
-  - unfold upd in Ho0. destruct (Nat.eqb x0 a) eqn:E.
+  - rewrite hget_upd in Ho0. destruct (Nat.eqb x0 a) eqn:E.
     + inversion Ho0; subst o0. right. eapply Hfields; exact Hi.
     + apply Nat.eqb_neq in E. destruct IH as [IH | IH]; [contradiction |].
       right. eapply reach_field; eassumption.
@@ -749,7 +752,7 @@ Lemma agree_upd : forall h1 h2 rs rs' a o,
   (forall x, reach (upd h2 a o) rs' x -> x = a \/ reach h2 rs x) ->
   agree (upd h1 a o) (upd h2 a o) rs'.
 Proof.
-  intros h1 h2 rs rs' a o Hag Hsub x Hx. unfold upd.
+  intros h1 h2 rs rs' a o Hag Hsub x Hx. rewrite !hget_upd.
   destruct (Nat.eqb x a) eqn:E; [reflexivity |].
   apply Nat.eqb_neq in E. destruct (Hsub x Hx) as [F | F]; [contradiction | apply Hag; exact F].
 Qed.
@@ -786,13 +789,13 @@ Proof.
     rewrite (deref_agree h1 h2 rs p Hag).
     destruct (deref h2 rs p) as [a |] eqn:Hp; simpl.
     + rewrite (Hag a (deref_reach h2 rs p a Hp)).
-      destruct (h2 a); simpl; (split; [reflexivity | repeat split; assumption]).
+      destruct (hget h2 a); simpl; (split; [reflexivity | repeat split; assumption]).
     + split; [reflexivity | repeat split; assumption].
   - (* GWrite *)
     rewrite (deref_agree h1 h2 rs p Hag).
     destruct (deref h2 rs p) as [a |] eqn:Hp; simpl.
     + pose proof (deref_reach h2 rs p a Hp) as Ra. rewrite (Hag a Ra).
-      destruct (h2 a) as [ob |] eqn:Hob; simpl.
+      destruct (hget h2 a) as [ob |] eqn:Hob; simpl.
       * split; [reflexivity |]. repeat split; simpl.
         eapply agree_upd; [exact Hag |]. apply reach_upd.
         -- intros r x Hx. right. eapply reach_root; exact Hx.
@@ -804,7 +807,7 @@ Proof.
     destruct (deref h2 rs p) as [a |] eqn:Hp; simpl; [| split; [reflexivity | repeat split; assumption]].
     destruct (deref h2 rs q) as [b |] eqn:Hq; simpl; [| split; [reflexivity | repeat split; assumption]].
     pose proof (deref_reach h2 rs p a Hp) as Ra. pose proof (deref_reach h2 rs q b Hq) as Rb.
-    rewrite (Hag a Ra). destruct (h2 a) as [ob |] eqn:Hob; simpl.
+    rewrite (Hag a Ra). destruct (hget h2 a) as [ob |] eqn:Hob; simpl.
     + split; [reflexivity |]. repeat split; simpl.
       eapply agree_upd; [exact Hag |]. apply reach_upd.
       * intros r x Hx. right. eapply reach_root; exact Hx.
@@ -867,6 +870,41 @@ Proof.
   destruct (grun_related collect ops 0 0 s s gc Hsafe (related_refl s)) as [A _]. exact A.
 Qed.
 
+(* the concrete sweep is safe: whatever is reachable is in a register or pointed to by a heap entry *)
+Lemma hget_In : forall h a o, hget h a = Some o -> In (a, o) h.
+Proof.
+  induction h as [| [x ob] t IH]; simpl; intros a o H; [discriminate |].
+  destruct (Nat.eqb a x) eqn:E.
+  - apply Nat.eqb_eq in E. inversion H; subst. left; reflexivity.
+  - right. apply IH; exact H.
+Qed.
+
+Lemma hget_filter : forall (P : addr -> bool) h a, P a = true ->
+  hget (filter (fun e : addr * gobj => P (fst e)) h) a = hget h a.
+Proof.
+  induction h as [| [x ob] t IH]; simpl; intros a Ha; [reflexivity |].
+  destruct (P x) eqn:Px; simpl.
+  - destruct (Nat.eqb a x); [reflexivity | apply IH; exact Ha].
+  - destruct (Nat.eqb a x) eqn:E; [| apply IH; exact Ha].
+    apply Nat.eqb_eq in E. subst. rewrite Ha in Px. discriminate.
+Qed.
+
+Lemma reach_rooted_or_pointed : forall h rs a, reach h rs a -> is_root rs a || pointed h a = true.
+Proof.
+  intros h rs a H. destruct H as [r a Hr | a0 o i b _ Ho Hi].
+  - apply orb_true_iff. left. unfold is_root. apply existsb_exists.
+    exists (Some a). split; [eapply nth_error_In; exact Hr | apply Nat.eqb_refl].
+  - apply orb_true_iff. right. unfold pointed. apply existsb_exists.
+    exists (a0, o). split; [apply hget_In; exact Ho |]. simpl.
+    apply existsb_exists. exists b. split; [eapply nth_error_In; exact Hi | apply Nat.eqb_refl].
+Qed.
+
+Lemma sweep_unreferenced_safe : collector_safe (fun _ => sweep_unreferenced).
+Proof.
+  intros n h rs a Ha. unfold sweep_unreferenced.
+  apply (hget_filter (fun x => is_root rs x || pointed h x)). apply reach_rooted_or_pointed; exact Ha.
+Qed.
+
 Theorem gc_config_independent : forall collect ops s c1 c2,
   collector_safe collect ->
   snd (grun_cfg c1 collect 0%nat ops s) = snd (grun_cfg c2 collect 0%nat ops s).
@@ -875,7 +913,7 @@ Proof.
   rewrite (gc_transparent collect ops s (gc c1) Hsafe), (gc_transparent collect ops s (gc c2) Hsafe). reflexivity.
 Qed.
 
-Definition g_empty : gstate := mkG (fun _ => None) [None; None; None] 0%nat.
+Definition g_empty : gstate := mkG [] [None; None; None] 0%nat.
 
 Lemma identity_collector_safe : collector_safe (fun _ h _ => h).
 Proof. intros n h rs a _. reflexivity. Qed.
@@ -885,6 +923,6 @@ Lemma unsafe_collector_differs :
   exists collect ops,
     snd (grun true collect 0%nat ops g_empty) <> snd (grun false collect 0%nat ops g_empty).
 Proof.
-  exists (fun _ _ _ => fun _ => None), [GAlloc 0%nat 5%Z []; GRead (0%nat, [])].
+  exists (fun _ _ _ => []), [GAlloc 0%nat 5%Z []; GRead (0%nat, [])].
   vm_compute. discriminate.
 Qed.
